@@ -13,7 +13,6 @@ import (
 type Locker = sync.Locker
 type WaitGroup = sync.WaitGroup
 type Once = sync.Once
-type Pool = sync.Pool
 type Map = sync.Map
 type Cond = sync.Cond
 
@@ -107,3 +106,51 @@ type rlocker RWMutex
 
 func (r *rlocker) Lock()   { (*RWMutex)(r).RLock() }
 func (r *rlocker) Unlock() { (*RWMutex)(r).RUnlock() }
+
+// Pool replaces sync.Pool: the real one hands out objects depending on the
+// garbage collector and on which P a goroutine runs on, and keeps them from one
+// run to the next. Under the scheduler it is a stack that is emptied at the
+// start of every run; Get misses (as after a collection) with a seeded chance.
+type Pool struct {
+	New   func() any
+	real  sync.Pool
+	items []any
+	owner *simrt.Sched
+}
+
+func (p *Pool) Get() any {
+	s := simrt.Active
+	if s == nil {
+		if x := p.real.Get(); x != nil {
+			return x
+		}
+		if p.New != nil {
+			return p.New()
+		}
+		return nil
+	}
+	if p.owner != s {
+		p.owner, p.items = s, nil
+	}
+	if n := len(p.items); n > 0 && !s.Ch.Chance("pool", 1, 4) {
+		x := p.items[n-1]
+		p.items = p.items[:n-1]
+		return x
+	}
+	if p.New != nil {
+		return p.New()
+	}
+	return nil
+}
+
+func (p *Pool) Put(x any) {
+	s := simrt.Active
+	if s == nil {
+		p.real.Put(x)
+		return
+	}
+	if p.owner != s {
+		p.owner, p.items = s, nil
+	}
+	p.items = append(p.items, x)
+}
